@@ -9,6 +9,7 @@ Line protocol of the size-guard model (C18).
   size rtp  <path> <proto> <max> <ctx> <reader> <shape>  → err | panic | udp <n> | tcp <declared> <written>
   size rtcp <path> <proto> <max> <ctx> <reader> <ver2> <lens>   (same answers; lens = parts of a compound packet)
   size start <client|server> <wq> <max>                  → err | ok <wq'> <max'>
+  size punch <ctx>                                       → <rtp> <rtcp>        firewall-opening datagrams
 
   <shape>  = <csrc> <ext> <payload> <padflag> <hdrPad> <pktPad>
   <ext>    = n | o:<lens> | t:<lens> | r:- | r:<len>
@@ -90,6 +91,10 @@ def mk : IO Handler := do
       | some path, some proto, some max, some ctx, some ls =>
         return showWire (path.rtcp max ctx (ver2 == "1") ls) (path.sendRtcp proto max ctx (ver2 == "1") ls)
       | _, _, _, _, _ => return "bad-op"
+    | ["punch", ctx] =>
+      match parseCtx ctx with
+      | some ctx => return s!"{punchRtp ctx} {punchRtcp ctx}"
+      | none => return "bad-op"
     | ["start", who, wq, max] =>
       match parseInt wq, parseInt max with
       | some wq, some max =>
